@@ -33,6 +33,7 @@ type genSet struct {
 	written  map[string]bool    // gen file existed right after the cff run
 	perFile  map[string]*cffRun // per-file re-runs after a crash of the tool on the package
 	per      int                // programs per package (default perPkg)
+	testFile bool               // every shared package also gets an ordinary _test.go file
 	race     bool               // build the driver with the race detector
 }
 
@@ -81,13 +82,16 @@ func (g *genSet) write(repo, verifDir string) {
 	writeFile(filepath.Join(g.dir, "ext", "debug", "debug.go"), "// Package debug is a user package whose name collides with runtime/debug.\npackage debug\n\nconst Marker = 2\n")
 	// types that reach a directive only through another package's function signatures; the defining package's
 	// name differs from the last element of its import path, or collides with a name the file uses
-	writeFile(filepath.Join(g.dir, "ext", "store", "v2", "store.go"), "// Package store has an import path ending in v2.\npackage store\n\ntype Record struct{ N int }\n")
+	writeFile(filepath.Join(g.dir, "ext", "store", "v2", "store.go"), "// Package store has an import path ending in v2.\npackage store\n\ntype Record struct{ N int }\n\ntype Other struct{ M int }\n")
 	writeFile(filepath.Join(g.dir, "ext", "go-model", "model.go"), "// Package model lives in a directory whose name is not an identifier.\npackage model\n\ntype Item struct{ N int }\n")
 	writeFile(filepath.Join(g.dir, "ext", "inner", "context", "context.go"), "// Package context is a user package named like a standard one.\npackage context\n\ntype Token struct{ N int }\n")
 	writeFile(filepath.Join(g.dir, "ext", "backend", "backend.go"), fmt.Sprintf("// Package backend exposes functions over types of packages its callers do not import.\npackage backend\n\nimport (\n\tictx \"%[1]s/ext/inner/context\"\n\tmodel \"%[1]s/ext/go-model\"\n\tstore \"%[1]s/ext/store/v2\"\n)\n\n"+
 		"func Fetch() (*store.Record, error) { return &store.Record{N: 7}, nil }\nfunc Describe(r *store.Record) int { return r.N + 1 }\n"+
+		"func Fetch2() store.Other { return store.Other{M: 9} }\nfunc Describe2(o store.Other) int32 { return int32(o.M) }\n"+
 		"func Item() model.Item { return model.Item{N: 3} }\nfunc Weigh(i model.Item) int64 { return int64(i.N) * 2 }\n"+
 		"func Token() ictx.Token { return ictx.Token{N: 5} }\nfunc Spend(t ictx.Token) uint8 { return uint8(t.N) }\n", modPath))
+	writeFile(filepath.Join(g.dir, "ext", "go-debug", "debug.go"), "// Package debug lives in a directory of another name.\npackage debug\n\nconst Marker = 3\n")
+	writeFile(filepath.Join(g.dir, "ext", "go-time", "time.go"), "// Package time lives in a directory of another name.\npackage time\n\nconst Marker = 4\n")
 	writeFile(filepath.Join(g.dir, "othertime", "othertime.go"), "// Package othertime is a user package that files import under the name time.\npackage othertime\n\nconst Marker = 1\n")
 	var pkgs []string
 	havePkg := map[string]bool{}
@@ -105,6 +109,10 @@ func (g *genSet) write(repo, verifDir string) {
 			havePkg[pkg] = true
 			pkgs = append(pkgs, pkg)
 			writeFile(filepath.Join(g.dir, pkg, "types.go"), pg.TypesFile(pkg))
+			if g.testFile {
+				// the package also has an ordinary test file: the tool then sees the package and its test variants
+				writeFile(filepath.Join(g.dir, pkg, "plain_test.go"), "package "+pkg+"\n\nimport \"testing\"\n\nfunc TestPlain(t *testing.T) {}\n")
+			}
 		}
 		g.pkgOf[p.ID] = pkg
 		src := filepath.Join(g.dir, pkg, strings.ToLower(p.ID)+".go")
